@@ -577,6 +577,11 @@ def applyCheckIn (rec : Rec) (c : CheckIn) : Rec :=
 /-- is the record offered again by `URLItemSource.get_item` (`check_out(todo)` / `check_out(error)`)? -/
 def offered (rec : Rec) : Bool := rec.status = .todo || rec.status = .error
 
+/-- `BaseSQLURLTable.release()` at start-up: an item left `in_progress` by a process that died goes back
+to `todo`; its try count is NOT touched (the completed failed attempts stay counted) -/
+def release (rec : Rec) : Rec :=
+  if rec.status = .inProgress then { rec with status := .todo } else rec
+
 /-- one visit as the end-to-end trace shows it -/
 structure VisitRow where
   requests : Nat
